@@ -59,7 +59,7 @@ Definition stage_values (e : venv) (shell word : str) (m : meta) (vs : list raw)
       (sort_by_display (stage_integrate e shell word m (stage_filter e word vs))).
 
 Definition format (e : venv) (shell word : str) (m : meta) (vs : list raw) : str :=
-  if str_eqb shell s_bash then bash_format (fe e) word m vs
+  if str_eqb shell s_bash then bash_format (ci e) (fe e) word m vs
   else if str_eqb shell s_bash_ble then bash_ble_format m vs
   else if str_eqb shell s_cmd_clink then cmd_clink_format m vs
   else if str_eqb shell s_elvish then elvish_format (fe e) m vs
